@@ -29,8 +29,13 @@ Property clauses and where they are:
   start-up catch-up, chunk sizes, failing log queries ............. `catchup_*`, `life_*`
   stored head of an earlier life ................................... `head_spec_partial` (`h0`), `head_spec_life`
   failing database under `setL1Head` .............................. `db_fault_keeps_head`
-  subscription failures / resubscriptions ......................... the model's transitions are identities by
-      transcription (`run_filter_data` in Proofs); evidence is the harness, not a theorem
+  subscription failures / resubscriptions ......................... in the flat trace model the transitions are
+      identities by transcription (`run_filter_data` in Proofs); since round 5 `Props5.lean` has the event loop
+      with its channel and subscription bookkeeping (`Loop`): `resubscription_loses_nothing`, `event_loop_is_trace`
+  concurrent `L1Head()` / `SetL1Head` (round 5, `Props5.lean`) ...... `served_head_is_recorded_head`,
+      `served_heads_never_go_back`, `served_l2_never_regresses`, `racy_cache_serves_stale_head`, `cas_cache_coherent`
+  scan ranges, `uint64` chunk arithmetic, geth finalised height ... `catchup_queries_tile`,
+      `chunk_arithmetic_is_uint64`, `geth_poll_uses_first_header` (`Props5.lean`)
   the geth forwarding layer ....................................... model `forwardStream = map decodeLog` is a
       transcription (`forward_map_facts` in Proofs); evidence is the harness
   what is handed to `Blockchain.SetL1Head` / listener / feed ...... `head_is_last_notification`,
